@@ -73,6 +73,13 @@ def c01(res, tier, rng, wd):
         s = e1.gen_random_sequences(rng, framing, 40 if thorough else 8, sid, lat, small=False, frames=(1, 8))
         scs += s
         sid += len(s)
+    # one reply per request whatever else the session is told meanwhile and at every decode level
+    s = e1.gen_split_with_command(rng, 40 if thorough else 12, sid, tagp="c01")
+    scs += s
+    sid += len(s)
+    s = e1.at_levels(rng.sample(scs, 60 if thorough else 24), [[3, 2, 2], rng.choice(e1.DECODES)], sid)
+    scs += s
+    sid += len(s)
     res.samples = [{"scenario": {k: scs[i][k] for k in ("framing", "units", "holes", "tag")},
                     "first_steps": scs[i]["steps"][:2]} for i in (0, len(scs) // 2)]
     rejs = e1.check_scripts(res, scs, wd, "c01")
@@ -174,7 +181,7 @@ def sample_of(scs, k=2):
     out = []
     for i in range(0, len(scs), max(1, len(scs) // k))[:k]:
         s = scs[i]
-        out.append({"tag": s["tag"], "framing": s["framing"], "units": s["units"], "auth": s["auth"],
+        out.append({"tag": s["tag"], "framing": s["framing"], "units": s["units"], "auth": s.get("auth"),
                     "decode": s["decode"], "first_steps": [json.dumps(x)[:160] for x in s["steps"][:3]]})
     return out
 
@@ -211,20 +218,7 @@ def c02(res, tier, rng, wd):
         data = [b for f in fr for b in f]
         steps = [e1.rx(c) for c in (e1.chunk_random(rng, data) if rng.random() < 0.5 else [data])]
         scs.append(e1.scenario(len(scs), framing, [1, 2], steps, seed=rng.randrange(100), tag="c02-after-bad-frame"))
-    # a command that reaches the session between the reads of one split frame must not disturb its handling
-    split = []
-    for framing in ("tcp", "rtu"):
-        for k in range(60 if thorough else 16):
-            pdu = e1.random_valid_pdu(rng) if rng.random() < 0.7 else e1.req_wmr(3, [1, 2, 3])
-            if framing == "rtu" and not e1.rtu_delimitable(pdu):
-                continue
-            f = e1.frame(framing, 7 + k, 1, pdu)
-            cut = rng.choice([1, 2, 6, 7, 8, len(f) - 1])
-            cut = max(1, min(len(f) - 1, cut))
-            g = e1.frame(framing, 8 + k, 1, e1.readback_of(pdu) or e1.req_read(3, 0, 1))
-            steps = [e1.rx(f[:cut]), {"op": "decode", "level": rng.choice(e1.DECODES)}, e1.rx(f[cut:]), e1.rx(g)]
-            split.append(e1.scenario(len(scs) + len(split), framing, [1, 2], steps, seed=rng.randrange(100),
-                                     auth=rng.choice(AUTH_MODES[:3]), tag=f"c02-command-inside-split-frame@{cut}"))
+    split = e1.gen_split_with_command(rng, 60 if thorough else 16, len(scs), auth_modes=AUTH_MODES[:3], tagp="c02")
     scs += split
     for i, x in enumerate(scs):
         x["id"] = i
@@ -255,7 +249,10 @@ def c06(res, tier, rng, wd):
     thorough = tier == "thorough"
     design_crc(res, "C06", thorough)
     scs = e1.gen_c06(rng, 0, thorough)
+    multi = [s for s in scs if "-good" in s["tag"] or "bytecount" in s["tag"]]        # several frames on one session
+    scs += e1.at_levels(scs[:: (7 if thorough else 29)] + multi[:: (1 if thorough else 2)], [[3, 2, 2], [0, 1, 0], [1, 0, 2]], len(scs))
     run_e1(res, "C06", scs, wd, "c06")
+    run_rtu_task(res, "C06", e1.gen_rtu_task_c06(rng, thorough), wd, "c06rtutask")
     run_e2(res, "C06", e2.gen_c06_client(rng, thorough), wd, "c06client")
     res.assumptions = E1_ASSUME + ["CRC-16/MODBUS is computed by TLC from its own table (Rtu.tla), independent of the crc crate"]
     return res.finish(rule="RTU request frames of every function (min/typical/max size, broadcast): every single-bit flip "
@@ -298,6 +295,7 @@ def c17(res, tier, rng, wd):
     design_server(res, "C17", ["SilentUnlessAddressed", "BroadcastNeverAnswered", "BroadcastOnceEach", "BroadcastReadsIgnored"],
                   thorough, neg=True)
     scs = e1.gen_c17(rng, 0, thorough)
+    scs += e1.at_levels(scs, [[3, 2, 2], [1, 0, 0]] + ([[2, 1, 1], [0, 2, 0]] if thorough else []), len(scs))
     run_e1(res, "C17", scs, wd, "c17")
     res.assumptions = E1_ASSUME
     return res.finish(rule="unit ids (quick: boundary set + 8 random, thorough: all 256) x {valid read, valid writes, handler failure, "
@@ -354,6 +352,22 @@ def sample_e2(scs, k=2):
         out.append({"tag": s["tag"], "framing": s["framing"], "queue": s["queue"], "max_timeouts": s["max_timeouts"],
                     "first_steps": [json.dumps(x)[:140] for x in s["steps"][:5]]})
     return out
+
+
+def run_rtu_task(res, pid, scs, wd, name):
+    """the production RTU server task (port open / re-open loop) under virtual time, judged by RtuServerTaskTrace.tla"""
+    res.samples += sample_of(scs)
+    for sc, r in e1.check_rtu_task(res, scs, wd, name):
+        obj = e1.replay_obj(pid, sc, r)
+        obj["engine"] = "e1-rtutask"
+        res.violation(e1.describe_rejection(sc, r), obj)
+
+
+def _replay_rtu_task(res, pid, obj, wd):
+    run_rtu_task(res, pid, [obj["scenario"]], wd, "replay")
+
+
+REPLAYERS["e1-rtutask"] = _replay_rtu_task
 
 
 def run_e2(res, pid, scs, wd, name):
@@ -418,6 +432,7 @@ def c11(res, tier, rng, wd):
                   neg=("notxcheck", "OnlyMatchingCompletes", False))
     scs = e2.gen_c11(rng, thorough)
     run_e2(res, "C11", scs, wd, "c11")
+    run_e2(res, "C11", e2.at_levels(scs, [[3, 2, 2], [0, 1, 0]] + ([[0, 2, 0], [1, 0, 1]] if thorough else [])), wd, "c11levels")
     if thorough:
         run_e2(res, "C11", e2.gen_c11_wrap(rng), wd, "c11wrap")
     res.assumptions = E2_ASSUME
@@ -446,10 +461,19 @@ def c13(res, tier, rng, wd):
     scs = e2.gen_c13(rng, tier == "thorough")
     run_e2(res, "C13", scs, wd, "c13")
     run_e2(res, "C13", e2.sim_scripts(wd, "task", 4000 if tier == "thorough" else 600, res.seed + 1), wd, "c13sim")
+    # the RTU channel task (SerialChannelTask) through the verif-hooks port opener: the same grid and TLC-simulated behaviours
+    ser = e2.to_serial([s for s in scs if "race" not in s.get("tag", "")]) + e2.to_serial(e2.gen_task_random(rng, 1500 if tier == "thorough" else 150))
+    for i, s in enumerate(ser):
+        s["id"] = i
+    run_e2(res, "C13", ser, wd, "c13serial")
+    run_e2(res, "C13", e2.sim_scripts(wd, "serial", 4000 if tier == "thorough" else 500, res.seed + 2), wd, "c13simserial")
+    # the RTU server task: open / session / re-open loop, shutdown and handle drop from every state
+    run_rtu_task(res, "C13", e1.gen_rtu_task_random(rng, 1500 if tier == "thorough" else 200), wd, "c13rtuserver")
     # black-box: the TLS channel against a peer that accepts TCP and never starts the handshake
     run_e4(res, "C13", e4.gen_tls_client_stall(), wd, "c13tlsstall")
     res.assumptions = E2_ASSUME + ["the production TcpChannelTask obtains its connections from the verif-hooks connector "
-                                   "(same select! against fail_requests); real sockets / serial ports are exercised by the black-box slice"]
+                                   "(same select! against fail_requests) and the production SerialChannelTask opens its port through the verif-hooks "
+                                   "port opener; real sockets are exercised by the black-box slice"]
     return res.finish(rule="every command / fault (submit, enable, disable, decode, shutdown, drop handles, abort, connect ok / "
                            "refused, EOF, garbage, write error, timer) at every life-cycle location (disabled, connecting, waiting after "
                            "failed connect, connected idle / awaiting, waiting after disconnect, disabled again) plus random scripts; "
@@ -463,6 +487,8 @@ def c14(res, tier, rng, wd):
     design_client(res, "C14", [], ["DelaysFollowStrategy", "AttemptNotBeforeWake"], tier == "thorough")
     scs = e2.gen_c14(rng, tier == "thorough")
     run_e2(res, "C14", scs, wd, "c14")
+    run_e2(res, "C14", e2.gen_serial_c14(rng, tier == "thorough"), wd, "c14serial")
+    run_rtu_task(res, "C14", e1.gen_rtu_task_c14(rng, tier == "thorough"), wd, "c14rtuserver")
     res.assumptions = E2_ASSUME + ["delays are observed in virtual milliseconds: the announced delay (listener) and the instant of the next connection attempt"]
     return res.finish(rule="(min, max) grid incl. min = max, max < 2 min, max not a power-of-two multiple; patterns of k failed "
                            "connects, success, lost connection (EOF, garbage, consecutive-timeout limit), disable/enable; the script waits "
@@ -499,6 +525,10 @@ def design_client(res, pid, invariants, properties, thorough=False, neg=None):
     sss = dict(base)
     sss.update({"Mode": '"session"', "MaxPeer": 3, "WithAbort": "TRUE"})
     vf.design_run(res, pid, "Client_MC-session", "Client_MC.tla", "SpecMC", sss, invariants, properties)
+    ser = dict(base)
+    ser.update({"Mode": '"serial"', "MaxCmds": 3, "MaxTO": 0})
+    vf.design_run(res, pid, "Client_MC-serial", "Client_MC.tla", "SpecMC", ser, invariants,
+                  properties + (["OpenOutcome"] if "DelaysFollowStrategy" in properties else []))
     if thorough:
         big = dict(t)
         big.update({"NReq": 3, "MaxCmds": 3, "MaxPeer": 3, "MaxTicks": 4, "WithAbort": "TRUE", "Cap": 2, "MaxTO": 2})
